@@ -21,13 +21,13 @@ func newAVBuilder(nm map[string]string) *avBuilder {
 
 func (b *avBuilder) ord() int { o := b.next; b.next++; return o }
 
-func avInt(x int32) *AV    { return &AV{Kind: 'I', Int: int64(x), Ord: -1} }
-func avLong(x int64) *AV   { return &AV{Kind: 'L', Int: x, Ord: -1} }
+func avInt(x int32) *AV      { return &AV{Kind: 'I', Int: int64(x), Ord: -1} }
+func avLong(x int64) *AV     { return &AV{Kind: 'L', Int: x, Ord: -1} }
 func avDouble(f float64) *AV { return &AV{Kind: 'D', F: f, Ord: -1} }
-func avBool(x bool) *AV    { return &AV{Kind: 'T', Bool: x, Ord: -1} }
-func avStr(s string) *AV   { return &AV{Kind: 'S', Str: s, Ord: -1} }
-func avBin(x []byte) *AV   { return &AV{Kind: 'B', Bytes: x, Ord: -1} }
-func avNull() *AV          { return &AV{Kind: 'N', Ord: -1} }
+func avBool(x bool) *AV      { return &AV{Kind: 'T', Bool: x, Ord: -1} }
+func avStr(s string) *AV     { return &AV{Kind: 'S', Str: s, Ord: -1} }
+func avBin(x []byte) *AV     { return &AV{Kind: 'B', Bytes: x, Ord: -1} }
+func avNull() *AV            { return &AV{Kind: 'N', Ord: -1} }
 func avDate(t time.Time) *AV {
 	if t.IsZero() {
 		return avNull()
